@@ -67,10 +67,33 @@ func (s vhS) M() string   { return "m" }
 func (s *vhS) P() string  { return "p" }
 func (s vhS) N(i int) int { return i }
 
-var vhC05Shapes = []string{"nil", "bool", "int", "int64", "float", "string", "list", "strings", "ints", "array", "map", "map-int", "intmap", "struct", "ptr", "nilptr", "nested", "emptylist", "emptymap"}
+var vhC05Shapes = []string{"embed", "embed-nilptr", "ptr-embed-nilptr", "biglist-maps", "biglist", "ifacemap", "floatmap", "nil", "bool", "int", "int64", "float", "string", "list", "strings", "ints", "array", "map", "map-int", "intmap", "struct", "ptr", "nilptr", "nested", "emptylist", "emptymap"}
 
 func vhC05Value(k int) interface{} {
 	switch vhC05Shapes[k] {
+	case "embed":
+		return vhOuterT{vhInnerT: vhInnerT{Promoted: "p"}, vhDeepT: &vhDeepT{Deep: "d"}, Name: "n"}
+	case "embed-nilptr":
+		return vhOuterT{Name: "n"}
+	case "ptr-embed-nilptr":
+		return &vhOuterT{Name: "n"}
+	case "biglist-maps":
+		// longer than every internal size threshold (50, 64), holding unhashable elements
+		xs := make([]interface{}, 70)
+		for i := range xs {
+			xs[i] = map[string]interface{}{"k": i}
+		}
+		return xs
+	case "biglist":
+		xs := make([]interface{}, 70)
+		for i := range xs {
+			xs[i] = i
+		}
+		return xs
+	case "ifacemap":
+		return map[interface{}]interface{}{1: "a", "b": 2, 2.5: nil}
+	case "floatmap":
+		return map[float64]string{0.5: "a", 1.5: "b"}
 	case "nil":
 		return nil
 	case "bool":
@@ -121,6 +144,7 @@ func vhC05Value(k int) interface{} {
 }
 
 var vhC05Tpl = []string{
+	"{{ v.Deep }}", "{{ v.Promoted }}", "{{ v.Name }}", "{{ v.InnerMethod }}", "{{ v.vhDeepT }}", "{{ [1] in v }}", "{{ {'k': 1} in v }}", "{{ v in v }}", "{{ 69 in v }}", "{{ v[i]|length }}", "{{ v|first|keys|first }}",
 	"{{ v }}", "{{ v.a }}", "{{ v.A }}", "{{ v.M }}", "{{ v.P }}", "{{ v.N }}", "{{ v.priv }}", "{{ v[0] }}", "{{ v['a'] }}", "{{ v[u] }}", "{{ v[i] }}", "{{ v.a.b }}", "{{ v[0][0] }}",
 	"{{ v|length }}", "{{ v|first }}", "{{ v|last }}", "{{ v|join(',') }}", "{{ v|keys|join(',') }}", "{{ v|merge([1]) |length }}", "{{ v|merge({'k': 1})|length }}",
 	"{{ v|sort|join(',') }}", "{{ v|reverse|length }}", "{{ v|slice(I, J)|length }}", "{{ v|slice(I)|length }}", "{{ v|upper }}", "{{ v|lower }}", "{{ v|capitalize }}", "{{ v|title }}", "{{ v|trim }}",
